@@ -226,7 +226,7 @@ def test_st():
             if form == "eq":
                 atoms.append(["eq", i, wv])
             elif form == "gt" and wv > 0:
-                atoms.append(["gt", i, wv - rng.choice([1, 2, wv])])
+                atoms.append(["gt", i, max(0, wv - rng.choice([1, 2, wv]))])
             elif form == "lt" and wv < M256:
                 atoms.append(["lt", i, min(M256, wv + rng.choice([1, 2, 1 << 200]))])
             elif form == "sum":
